@@ -1,8 +1,10 @@
 """C19 - point queries at interior cell centres return the stored cell value."""
 from props.C01 import Reader, ASSUMPTIONS as A01, TRUSTED as T01
 
-ASSUMPTIONS = A01 + ["the box matching loop and the finest-level choice of LevelDataSelector.__call__ are covered by the bounded run-time "
-                     "layer; the proof layer covers the single-box branch (which box is read, index conversion of the point; "
+ASSUMPTIONS = A01 + ["the box matching loop and the finest-level choice of LevelDataSelector.__call__ are proved on one two-level skeleton "
+                     "(a fine box across the face shared by two coarse boxes, concrete index ranges, symbolic origin and cell sizes, "
+                     "every interior fine cell) and otherwise covered by the bounded run-time layer; the between-boxes branch is "
+                     "outside the property; the proof layer covers the single-box branch (which box is read, index conversion of the point; "
                      "fragment of __call__ extracted mechanically, number of levels a skeleton parameter, reals for floats) and "
                      "the box read the query delegates to (C01 readers)",
                      "scipy.ndimage.map_coordinates at integer coordinates reproduces the sample (checked to 1e-9 relative)"]
